@@ -205,6 +205,32 @@ theorem S1_pipeline_exact (rs : List ReqSpec) (hall : ∀ r ∈ rs, r.OK) (ss : 
     (srvFeed {} ss).1 = rs.map (fun r => dispatch r.raw) ∧ (srvFeed {} ss).2 = { buffer := [], alive := true } :=
   pipeline_any_segmentation rs hall ss hss hb
 
+open Iora.Http.Srv in
+/-- **S1 (what the handler sees).** For a complete request of the reference syntax - method from the method table, request
+target without SP/CTL/DEL (and, for this theorem, without `:`), `HTTP/1.<minor>`, field lines incl. exactly one non-empty
+`Host` - the bytes handed over by the extractor parse to exactly: the method, the target, the header map built by
+`addOrCombineHeader` over the field lines in order (last value wins, list-valued fields combine), and the decoded body. -/
+theorem S1_request_exact (r : FullReq) (hrl : r.rl.WF) (hok : r.spec.OK) (hhost : hostCount r.fields = 1)
+    (hhv : hdrFind (reqHeaders r.fields []) (ascii "Host") ≠ some []) (rest : Bytes) :
+    extractOne (r.spec.render ++ rest) = .request r.spec.raw r.spec.render.length ∧
+    fromWireFormat r.spec.raw =
+      .ok { method := r.rl.method, uri := r.rl.target, minor := r.rl.minor, headers := reqHeaders r.fields [],
+            body := r.body.content } :=
+  ⟨extract_exact _ _ _ _ hok.1 hok.2 rest, fromWireFormat_exact r hrl hok hhost hhv⟩
+
+open Iora.Http.Srv Iora.Http.Spec in
+/-- non-vacuity of the hypotheses of `S1_request_exact`: `POST /a?b=1 HTTP/1.1`, `Host: h`, `Via: x`, `Content-Length: 2`, body `hi` -/
+def exampleReq : FullReq :=
+  { rl := { method := 1, target := ascii "/a?b=1", minor := 1 },
+    before := [{ name := ascii "Host", value := ascii "h" }, { name := ascii "Via", value := ascii "x" }],
+    body := .sized (ascii "2") (ascii "hi") }
+
+open Iora.Http.Srv Iora.Http.Spec in
+example : exampleReq.rl.WF ∧ hostCount exampleReq.fields = 1 ∧
+    hdrFind (reqHeaders exampleReq.fields []) (ascii "Host") ≠ some [] ∧
+    exampleReq.rl.render = ascii "POST /a?b=1 HTTP/1.1" ∧ (∀ c ∈ exampleReq.rl.render, c ≠ 13 ∧ c ≠ 10 ∧ c ≠ 58) := by
+  refine ⟨⟨by decide, by decide, by decide, by decide, by decide⟩, by decide, by decide, by decide, by decide⟩
+
 open Iora.Http.Srv Iora.Http.Spec in
 /-- non-vacuity: `POST /x HTTP/1.1`, `Host: a`, `Transfer-Encoding: chunked`, chunk `3 abc`, last chunk with a trailer -/
 example : ReqWF (ascii "POST /x HTTP/1.1") [{ name := ascii "Host", value := ascii "a" }] []
